@@ -188,6 +188,17 @@ def run(chk):
             s = sum(be[1][:nal])
             if abs(s - N0) > 1e-8 * N0:
                 chk.fail("break-aligned bins sum to N0", sp, dict(sum=s))
+        if sp["ext"] == "raise":
+            # raise mode on a bin set that MIXES bins inside the range with one beyond it (above or below): the outside bin makes the call raise
+            for lo_x, up_x, where_ in ((mb[-1] * 1.1, mb[-1] * 1.3, "above"), (mb[0] * 0.5, mb[0] * 0.9, "below")):
+                try:
+                    r_ = imf.binned_eval(mbin(np.array(bl[:nal] + [lo_x]), np.array(bu[:nal] + [up_x])))
+                    got_x = ("returned", [float(x) for x in np.atleast_1d(r_[0])][-3:])
+                except ValueError:
+                    got_x = ("ValueError",)
+                chk.count("raise mode on mixed inside / outside bin sets")
+                if got_x[0] != "ValueError":
+                    chk.fail("outside-range mode 'raise' raises ValueError", dict(sp, bins="%d bins inside the range plus one %s it" % (nal, where_)), got_x)
         # a per-call normalisation N overrides the object's own N0 - whatever its value or type (zero included): N(m) and every bin scale with N
         for Nx in (0, 0.0, np.float64(0.0), 2.5 * float(N0), np.float32(3.0)):
             m_in = ms[0]
